@@ -520,7 +520,38 @@ pub fn run(args: &Args) -> i32 {
                             }
                         }
                         Err(mpsc::RecvTimeoutError::Timeout) => {
-                            tx.send((k, None)).ok(); // hang on case k
+                            // hang on case k — or a busy machine: the case is a hang only if it also exceeds 3 minutes in a worker of its own
+                            let _ = child.kill();
+                            let mut c2cmd = Command::new(&exe);
+                            c2cmd.args(["c14", "--seed", &seed.to_string(), "--tier", &tier, "--worker-from", &k.to_string(), "--worker-to", &(k + 1).to_string()]);
+                            if exhaustive {
+                                c2cmd.args(["--exhaustive", "1"]);
+                            }
+                            let mut answer: Option<String> = None;
+                            if let Ok(mut c2) = c2cmd.stdout(Stdio::piped()).stderr(Stdio::null()).spawn() {
+                                let so = c2.stdout.take().unwrap();
+                                let (t2, r2) = mpsc::channel::<String>();
+                                std::thread::spawn(move || {
+                                    for line in std::io::BufReader::new(so).lines().map_while(Result::ok) {
+                                        if t2.send(line).is_err() {
+                                            break;
+                                        }
+                                    }
+                                });
+                                let deadline = std::time::Instant::now() + Duration::from_secs(180);
+                                while let Ok(l) = r2.recv_timeout(deadline.saturating_duration_since(std::time::Instant::now())) {
+                                    if let Some(rest) = l.strip_prefix("C14CASE ") {
+                                        answer = Some(rest.to_string());
+                                        break;
+                                    }
+                                    if l.starts_with("C14DONE") {
+                                        break;
+                                    }
+                                }
+                                let _ = c2.kill();
+                                let _ = c2.wait();
+                            }
+                            tx.send((k, answer)).ok();
                             k += 1;
                             break;
                         }
